@@ -658,3 +658,26 @@ func (t *SchTy) AssignNodeSafe() bool {
 	}
 	return true
 }
+
+// HasTypedMap: t contains a typed map (the nil-map half of the known AssignNode defect).
+func (t *SchTy) HasTypedMap() bool {
+	switch t.K {
+	case 'M':
+		return true
+	case 'L':
+		return t.Elem.HasTypedMap()
+	case 'R':
+		for _, f := range t.Fields {
+			if f.T.HasTypedMap() {
+				return true
+			}
+		}
+	case 'U':
+		for _, m := range t.Members {
+			if m.T.HasTypedMap() {
+				return true
+			}
+		}
+	}
+	return false
+}
